@@ -3,12 +3,14 @@
 //! the same file; bin/check diffs the two).
 mod common;
 mod registry_seq;
+mod defaults;
 
 fn main() {
     let args: Vec<String> = std::env::args().collect();
     let cmd = args.get(1).map(|s| s.as_str()).unwrap_or("");
     let code = match cmd {
         "registry" => registry_seq::main(),
+        "defaults" => defaults::main(),
         _ => {
             eprintln!("usage: harness <registry>");
             2
